@@ -93,6 +93,13 @@ fn modinv(a: &BigUint, m: &BigUint) -> Option<BigUint> {
     (((t0 % &mi) + &mi) % &mi).to_biguint()
 }
 
+fn hash_of<T: std::hash::Hash>(v: &T) -> u64 {
+    use std::hash::Hasher;
+    let mut h = std::collections::hash_map::DefaultHasher::new();
+    v.hash(&mut h);
+    h.finish()
+}
+
 fn small_prime_factors(h: &BigUint) -> Vec<u64> {
     let mut out = Vec::new();
     let mut n = h.clone();
@@ -471,7 +478,21 @@ where
         let res: Result<(Sw<P::BaseField>, bool), SerializationError> = if projective {
             no_panic("deserialize.projective", || deser::<SwProj<P>, ()>(&mut rd, c, val))?.map(|q| (sw_from_proj::<P>(&q), q.x.canonical() && q.y.canonical() && q.z.canonical()))
         } else {
-            no_panic("deserialize.affine", || deser::<SwAffine<P>, ()>(&mut rd, c, val))?.map(|q| (sw_from_affine::<P>(&q), q.x.canonical() && q.y.canonical()))
+            let r = no_panic("deserialize.affine", || deser::<SwAffine<P>, ()>(&mut rd, c, val))?;
+            if let Ok(q) = &r {
+                // whatever the mode: a decoded value that denotes the identity must be *the* identity value (equal to it and
+                // hashing like it), not a second representation with left-over coordinates
+                if q.is_zero() {
+                    ensure!(
+                        *q == SwAffine::<P>::identity() && hash_of(q) == hash_of(&SwAffine::<P>::identity()),
+                        format!("identity-not-canonical.{}.{}", cname(c), vname(val)),
+                        "input {} decodes to a value with is_zero() that differs from Affine::identity(): {:?}",
+                        hex(input),
+                        q
+                    );
+                }
+            }
+            r.map(|q| (sw_from_affine::<P>(&q), q.x.canonical() && q.y.canonical()))
         };
         let mn = format!("{}.{}", cname(c), vname(val));
         ensure!(rd.pos <= size, format!("read-past-size.{}", cname(c)), "{}: {} bytes consumed, advertised size {}", mn, rd.pos, size);
